@@ -167,11 +167,13 @@ class Scheduler:
             self.on_abort(kind, detail)  # normally does not return (os._exit)
         raise HarnessError(kind, detail)
 
-    def stacks(self, limit=12):
+    def stacks(self, limit=12, only_forever=False):
         out = []
         frames = sys._current_frames()
         for t in self.tasks:
             if t.done:
+                continue
+            if only_forever and (t.blocked_on is None or t.deadline is not None):
                 continue
             fr = frames.get(t.ident)
             st = ''.join(traceback.format_stack(fr, limit=limit)) if fr is not None else ''
